@@ -335,11 +335,12 @@ def finding_for(ctx, sig, config):
 
 def run(ctx):
     t0 = time.time()
-    ctx.lean_stage(["emph_chars", "entities"], ["Verif.Props.C01", "Verif.Props.BqCount", "Verif.Props.LinkRecog", "Verif.Props.InlineRecog", "Verif.Props.Emphasis", "Verif.Props.InlineLoop", "Verif.Props.ListStarts"])
+    ctx.lean_stage(["emph_chars", "entities"], ["Verif.Props.C01", "Verif.Props.BqCount", "Verif.Props.LinkRecog", "Verif.Props.InlineRecog", "Verif.Props.Emphasis", "Verif.Props.InlineLoop", "Verif.Props.ListStarts", "Verif.Props.LeafBlocks2"])
     import blocks
     blocks.linkrecog(ctx)      # link_recognisers_total, lrd_total: no IndexError / assert, indices in range, progress
     blocks.inlinerecog(ctx)    # inline_recognisers_total_partial, tag scanners, fuel sufficiency
     blocks.emphasis(ctx)       # resolve_total_partial, fuel_sufficient_partial, fuel_monotone
+    blocks.leafblocks2(ctx)    # html_block_total (+ excluded), html_normal_range: the HTML-block classifiers are total
     blocks.liststarts(ctx)     # list_start_total / pre_list_total / close_required_total / can_close_terminates: list-item start recognition for an arbitrary stack
     blocks.inlineloop(ctx)     # inline_loop_terminates / inline_loop_total: the inline dispatcher ends within #start-characters turns, no IndexError / assert under the contract
     ctx.block("bqcountlib", "bqcount", __import__("blocks").SRC["bqcount"])          # block-quote marker counting: totality / termination / spec (Verif.Props.BqCount)
